@@ -33,7 +33,8 @@ def LowerGot (c : Cfg) (H : Nat → Prop) (P : Nat → Nat) (R : Nat → Prop) (
   match r with
   | .ok f => f / c.geom.treeFrames = t0 ∧ f % 2 ^ order = 0 ∧ GetAllowed c m f order ∧ GetPost c m m' f order ∧
       (∀ x, frame = some x → f = x) ∧ UpperInv c H (gset P t0 (P t0 - 2 ^ order)) R m'
-  | .error e => e = .memory ∧ m = m'
+  | .error e => e = .memory ∧ m = m' ∧
+      (frame = none → ∀ f, f / c.geom.treeFrames = t0 → f % 2 ^ order = 0 → ¬ GetAllowed c m f order)
 
 /-- `Lower::get` under the upper invariant: a success consumes `2^order` unaccounted frames of
     the tree; a failure changes nothing -/
@@ -62,7 +63,7 @@ theorem lower_get_upper (ok : CfgOk c) (inv : UpperInv c H P R m) (start order t
     cases hres with
     | found m' f htree hal hallowed post =>
       exact ⟨htree, hal, hallowed, post, (fun x h => by cases h), hupper f m' htree hal hallowed post⟩
-    | none hno => exact ⟨rfl, rfl⟩
+    | none hno => exact ⟨rfl, rfl, fun _ => hno⟩
   | some x =>
     obtain ⟨hb, hxt⟩ := hframe x rfl
     obtain ⟨h1, h2⟩ := lower_getAt_refines ok.geom m inv.lower x order hb
@@ -77,7 +78,7 @@ theorem lower_get_upper (ok : CfgOk c) (inv : UpperInv c H P R m) (start order t
     · apply Runs.bind (Runs.of_eq (h2 ha) (Q := fun r m1 => r = .error .memory ∧ m = m1) ⟨rfl, rfl⟩)
       rintro _ _ ⟨rfl, rfl⟩
       apply Runs.pure
-      exact ⟨rfl, rfl⟩
+      exact ⟨rfl, rfl, fun h => by cases h⟩
 
 /-- `Tree::steal` under an ordered policy: succeeds exactly on an unreserved tree with enough
     frames; the class becomes the requested one unless the request is of a higher class -/
@@ -109,7 +110,7 @@ theorem Tree.steal_ordered (hp : OrderedPolicy c.policy) (t : Tree) (cls n : Nat
 theorem trees_steal_spec (ok : CfgOk c) (inv : UpperInv c H P R m) (i cls n : Nat) (hi : i < c.ntrees) (hcls : cls < 8) :
     Runs m (Trees.steal c.policy i cls n) (fun r m' => match r with
       | some k => k < 8 ∧ UpperInv c H (gset P i (P i + n)) R m' ∧ SameAlloc m m' ∧ m'.slots = m.slots
-      | none => m = m') := by
+      | none => m = m' ∧ ∀ t : Tree, m.trees[i]? = some t → ¬ (t.free ≥ n ∧ t.reserved = false)) := by
   obtain ⟨t, ht⟩ := inv.tree_get i hi
   obtain ⟨h1, h2⟩ := Tree.steal_ordered (c := c) ok.policy t cls n
   unfold Trees.steal
@@ -127,7 +128,7 @@ theorem trees_steal_spec (ok : CfgOk c) (inv : UpperInv c H P R m) (i cls n : Na
     · simp only [gset_same]; omega
   · apply Runs.bind (Runs.tryUpdate_none (Q := fun r m' => r = .error t ∧ m = m') (by simpa using ht) (h2 hc) ⟨rfl, rfl⟩)
     rintro _ _ ⟨rfl, rfl⟩
-    exact Runs.pure rfl
+    exact Runs.pure ⟨rfl, fun t' ht' => by rw [ht] at ht'; cases ht'; exact hc⟩
 
 /-- the allocation state changed by exactly the allocation of block `(f, order)` -/
 def AllocEffect (c : Cfg) (m m' : Mem) (f order : Nat) : Prop :=
@@ -160,19 +161,28 @@ def GetOutcome (c : Cfg) (m : Mem) (order : Nat) (frame : Option Nat) (r : Res (
       AllocEffect c m m' f order
   | .error e => e = .memory ∧ SameAlloc m m'
 
-/-- `LLFree::steal_global` -/
-theorem stealGlobal_spec (ok : CfgOk c) (inv : UpperInv0 c H m) (i cls order : Nat) (frame : Option Nat)
+theorem SameAlloc.symm {a b : Mem} (h : SameAlloc a b) : SameAlloc b a := ⟨h.1.symm, h.2.symm⟩
+
+/-- why an untargeted allocation attempt in tree `i` may fail: the counter is too small or the
+    tree is reserved, or the tree holds no aligned free block of the order -/
+def NoRoom (c : Cfg) (m : Mem) (i order : Nat) : Prop :=
+  (∀ t : Tree, m.trees[i]? = some t → ¬ (t.free ≥ 2 ^ order ∧ t.reserved = false)) ∨
+  (∀ f, f / c.geom.treeFrames = i → f % 2 ^ order = 0 → ¬ GetAllowed c m f order)
+
+/-- `LLFree::steal_global`, with the reason of a failure -/
+theorem stealGlobal_spec' (ok : CfgOk c) (inv : UpperInv0 c H m) (i cls order : Nat) (frame : Option Nat)
     (hi : i < c.ntrees) (hcls : cls < 8) (hto : order ≤ c.geom.treeOrder)
     (hframe : ∀ x, frame = some x → BlockOk c x order ∧ x / c.geom.treeFrames = i) :
-    Runs m (stealGlobal c i cls order frame) (fun r m' => UpperInv0 c H m' ∧ GetOutcome c m order frame r m') := by
+    Runs m (stealGlobal c i cls order frame) (fun r m' => UpperInv0 c H m' ∧ GetOutcome c m order frame r m' ∧
+      (frame = none → ∀ e, r = .error e → NoRoom c m i order)) := by
   have okg := ok.geom.toGeomOk
   unfold stealGlobal
   apply Runs.bind (trees_steal_spec ok inv i cls (2 ^ order) hi hcls)
   rintro r m1 hr
   cases r with
   | none =>
-    subst hr
-    exact Runs.pure ⟨inv, rfl, SameAlloc.refl _⟩
+    obtain ⟨rfl, hwhy⟩ := hr
+    exact Runs.pure ⟨inv, ⟨rfl, SameAlloc.refl _⟩, fun _ _ _ => Or.inl hwhy⟩
   | some k =>
     obtain ⟨hk, inv1, same1, hslots⟩ := hr
     simp only
@@ -185,22 +195,31 @@ theorem stealGlobal_spec (ok : CfgOk c) (inv : UpperInv0 c H m) (i cls order : N
     | ok f =>
       obtain ⟨hft, hal, hallowed, post, hfx, inv2⟩ := hlr
       apply Runs.pure
-      refine ⟨inv2.congrP _ ?_, hk, hal, hallowed.congr same1, hfx, AllocEffect.of_post same1 post (SameAlloc.refl _)⟩
+      refine ⟨inv2.congrP _ ?_, ⟨hk, hal, hallowed.congr same1, hfx, AllocEffect.of_post same1 post (SameAlloc.refl _)⟩,
+        fun _ e h => by cases h⟩
       intro j
       by_cases e : j = i
       · subst e; simp
       · simp [gset, e]
     | error e =>
-      obtain ⟨rfl, rfl⟩ := hlr
+      obtain ⟨rfl, rfl, hno⟩ := hlr
       simp only
       apply Runs.bind (tput_spec ok inv1 i (2 ^ order) hi (by simp))
       rintro _ m3 ⟨inv3, same3⟩
       apply Runs.pure
-      refine ⟨inv3.congrP _ ?_, rfl, same1.trans same3⟩
+      refine ⟨inv3.congrP _ ?_, ⟨rfl, same1.trans same3⟩,
+        fun hf _ _ => Or.inr (fun f h1 h2 h3 => hno hf f h1 h2 (h3.congr same1.symm))⟩
       intro j
       by_cases e : j = i
       · subst e; simp
       · simp [gset, e]
+
+/-- `LLFree::steal_global` -/
+theorem stealGlobal_spec (ok : CfgOk c) (inv : UpperInv0 c H m) (i cls order : Nat) (frame : Option Nat)
+    (hi : i < c.ntrees) (hcls : cls < 8) (hto : order ≤ c.geom.treeOrder)
+    (hframe : ∀ x, frame = some x → BlockOk c x order ∧ x / c.geom.treeFrames = i) :
+    Runs m (stealGlobal c i cls order frame) (fun r m' => UpperInv0 c H m' ∧ GetOutcome c m order frame r m') :=
+  (stealGlobal_spec' ok inv i cls order frame hi hcls hto hframe).mono (fun _ _ h => ⟨h.1, h.2.1⟩)
 
 end
 end LLFree
